@@ -183,7 +183,8 @@ pub fn main(name: &str, args: &[String]) -> i32 {
             }
             let name = args.first().cloned().unwrap_or_else(|| "report.txt".into());
             if let Ok(mut f) = std::fs::OpenOptions::new().create(true).append(true).open(&name) {
-                let _ = writeln!(f, "wrote1={o} wrote2={e} wrote3={t} read0={:?}", String::from_utf8_lossy(&line));
+                let open: Vec<String> = [0, 1, 2, 3, 9].iter().filter(|fd| unsafe { libc::fcntl(**fd, libc::F_GETFD) } >= 0).map(|fd| fd.to_string()).collect();
+                let _ = writeln!(f, "wrote1={o} wrote2={e} wrote3={t} read0={:?} open={}", String::from_utf8_lossy(&line), open.join(","));
             }
             0
         }
